@@ -10,7 +10,7 @@
    Sizes: the buffers are shorter than 2^63 bytes (Go's int), nothing else. *)
 From GV Require Import Lib.Bytes Lib.Res Lib.GoSem Gen.Consts Gen.Funcs Model.Binary Spec.Wire Model.Skip Model.Nocopy
      Model.FastCodec Spec.FastSpec Spec.FastRead Proofs.BinaryP Proofs.NocopyLib Proofs.NocopyP Proofs.FastCodecLib
-     Proofs.FastCodecP Proofs.GenLib Proofs.GenEquiv Proofs.GenEquivFast Proofs.GenEquivAppEx Proofs.GenCorollariesFast.
+     Proofs.FastCodecP Proofs.GenLib Proofs.GenLib3 Proofs.GenEquiv Proofs.GenEquivFast Proofs.GenEquivAppEx Proofs.GenCorollariesFast.
 From Coq Require Import ZifyN ZifyNat ZifyBool.
 Open Scope N_scope.
 
